@@ -24,7 +24,8 @@ NAME = "Distribution"
 ALGO = "src/frequenz/sdk/microgrid/_power_distributing/_distribution_algorithm/_battery_distribution_algorithm.py"
 MATH = "src/frequenz/sdk/_internal/_math.py"
 MGR = "src/frequenz/sdk/microgrid/_power_distributing/_component_managers/_battery_manager.py"
-SOURCES = [ALGO, MATH, MGR]
+POOL = "src/frequenz/sdk/timeseries/battery_pool/_metric_calculator.py"
+SOURCES = [ALGO, MATH, MGR, POOL]
 
 
 class Bad(Exception):
@@ -527,6 +528,29 @@ def generate(repo: pathlib.Path) -> str:
     if len(rej) != 1:
         raise Bad("_check_request: rejection test changed")
     add("rejectedAdjust", rej[0].test, 3, "prop")
+
+    # ---- the bounds the battery pool ADVERTISES (PowerBoundsCalculator.calculate): per battery set
+    pool = ast.parse((repo / POOL).read_text())
+    pc = None
+    for n in ast.walk(pool):
+        if isinstance(n, ast.ClassDef) and n.name == "PowerBoundsCalculator":
+            pc = _func(n, "calculate")
+    if pc is None:
+        raise Bad("PowerBoundsCalculator.calculate not found")
+    for tgt, nm in (("exclusion_bounds_lower", "poolGroupExclLower"), ("exclusion_bounds_upper", "poolGroupExclUpper"),
+                    ("inclusion_bounds_lower", "poolGroupInclLower"), ("inclusion_bounds_upper", "poolGroupInclUpper")):
+        hits = [x for x in _assigns(pc) if isinstance(x, ast.AugAssign) and _target_src(x) == tgt]
+        if len(hits) != 1 or not isinstance(hits[0].op, ast.Add):
+            raise Bad(f"PowerBoundsCalculator.calculate: expected exactly one `{tgt} += …`")
+        add(nm, hits[0].value, 2)
+    inits = {_target_src(x): x.value for x in _assigns(pc) if isinstance(x, ast.Assign) and _target_src(x).endswith(("_lower", "_upper"))
+             and _target_src(x).startswith(("exclusion_bounds", "inclusion_bounds"))}
+    if {k: ast.unparse(v) for k, v in inits.items()} != {
+            "inclusion_bounds_lower": "0.0", "inclusion_bounds_upper": "0.0",
+            "exclusion_bounds_lower": "0.0", "exclusion_bounds_upper": "0.0"}:
+        raise Bad("PowerBoundsCalculator.calculate: the running bounds no longer start at 0.0")
+    if "_aggregate_battery_power_bounds(battery_bounds)" not in ast.unparse(_value_of(pc, "aggregated_bat_bounds")):
+        raise Bad("PowerBoundsCalculator.calculate: battery bounds are no longer aggregated by _aggregate_battery_power_bounds")
 
     out.append("end Extracted.Dist\n")
     return "\n".join(out)
